@@ -7,9 +7,12 @@
    - np.nanargmin raises on an all-NaN slice (caught by the code: label stays 0)  -> [nanargmin = None] -> false;
    - it returns the FIRST index of the minimum                                     -> Base/Argmin.v;
    - a NaN anywhere in a comparison makes it False                                 -> [None] -> false;
-   - x / 0 is inf or nan, and [inf < err], [nan < err] are False                   -> [rel_lt] tests the divisor;
+   - the relative tests divide by the SIGNED value f (resp. xi) of the pole itself, no absolute value;
+     x / 0 is inf or nan, and [inf < err], [nan < err] are False                   -> [rel_lt] tests the divisor;
    - 0/0 in MAC (a zero shape) is nan                                              -> [mac_q = None];
-   - a column index beyond the table raises IndexError outside the try block      -> [ScIndexErr].        *)
+   - column 0 is skipped ([continue]) whatever ordmin is: the first order has no previous order;
+   - a column index beyond the table raises IndexError outside the try block      -> [ScIndexErr].
+   The code is modelled for step = 1 (the only value for which SSI_poles builds a usable table).        *)
 From Coq Require Import List Arith ZArith QArith Qabs Bool.
 From PyOMA.Base Require Import Argmin.
 Import ListNotations.
@@ -73,13 +76,17 @@ Definition sc_apply Fn Xi Phi (c0 c1:nat) efn exi ephi : sc_res :=
 (* SSIcov / SSIdat / SSIcov_MS / SSIdat_MS .run():  SC_apply(Fns, Xis, Phis, ordmin, ordmax, step=1, ...);  column o = order o *)
 Definition sc_ssi Fn Xi Phi (ordmin ordmax:nat) efn exi ephi : sc_res := sc_apply Fn Xi Phi ordmin ordmax efn exi ephi.
 Definition ssi_order_of_col (o:nat) : nat := o.
-(* pLSCF / pLSCF_MS .run():  SC_apply(Fns, Xis, Phis, max(ordmin-1,0), ordmax-1, 1, ...);  column k = order k+1 *)
+(* pLSCF / pLSCF_MS .run():  SC_apply(Fns, Xis, Phis, max(ordmin-1,0), ordmax-1, 1, ...);  column k = order k+1.
+   ordmax = 0 gives the Python range(c0, 0), which is empty: nothing is visited, nothing is labelled. *)
 Definition sc_plscf Fn Xi Phi (ordmin ordmax:nat) efn exi ephi : sc_res :=
-  sc_apply Fn Xi Phi (Nat.max (ordmin - 1) 0) (ordmax - 1) efn exi ephi.
+  match ordmax with
+  | 0%nat => ScOk (lab_table Fn Xi Phi 1 0 efn exi ephi)
+  | S m => sc_apply Fn Xi Phi (Nat.max (ordmin - 1) 0) m efn exi ephi
+  end.
 Definition plscf_order_of_col (k:nat) : nat := S k.
 
 (* ---------- declarative reading of the property text ---------- *)
-(* relative difference below the tolerance, as the code evaluates it (divisor not zero) *)
+(* relative difference below the tolerance, as the code evaluates it (signed divisor, not zero) *)
 Definition rel_below (num den err:Q) : Prop := ~ den == 0 /\ num / den < err.
 Definition mac_below (m:option Q) (err:Q) : Prop := exists v, m = Some v /\ 1 - v < err.
 
@@ -90,6 +97,16 @@ Definition stable_spec Fn Xi (Phi:list (list (option Shape))) efn exi ephi (i o:
     getQ Fn k o1 = Some f1 /\ getQ Xi k o1 = Some x1 /\ getS Phi k o1 = Some p1 /\
     rel_below (Qabs (f - f1)) f efn /\ rel_below (Qabs (x - x1)) x exi /\ mac_below (mac p p1) ephi.
 
+(* the same with the relative difference read as a magnitude, |a - a'| / |a| < err  (the property text);
+   the two readings coincide on filtered pole tables, where frequencies and dampings are positive *)
+Definition rel_text (num den err:Q) : Prop := ~ den == 0 /\ num / Qabs den < err.
+Definition stable_text Fn Xi (Phi:list (list (option Shape))) efn exi ephi (i o:nat) : Prop :=
+  exists o1 f x p k d f1 x1 p1,
+    o = S o1 /\ getQ Fn i o = Some f /\ getQ Xi i o = Some x /\ getS Phi i o = Some p /\
+    is_first_argmin (dists Fn o1 f) k d /\
+    getQ Fn k o1 = Some f1 /\ getQ Xi k o1 = Some x1 /\ getS Phi k o1 = Some p1 /\
+    rel_text (Qabs (f - f1)) f efn /\ rel_text (Qabs (x - x1)) x exi /\ mac_below (mac p p1) ephi.
+
 (* ---------- exact margins, reported to the harness (DESIGN 3.5: decisions within 1e-9 are not judged) ---------- *)
 Definition tol9 : Q := 1 # 1000000000.
 (* 0 < |a - b| <= tol9 * scale *)
@@ -99,35 +116,53 @@ Definition tie (a b:Q) : bool := Qeq_bool (a - b) 0.
 Definition runner_up_near (ds:list (option Q)) (d:Q) : bool :=
   existsb (fun e => match e with Some e => near e d e | None => false end) ds.
 
+(* one test: clearly true / clearly false / within 1e-9 of the tolerance / exactly on the tolerance *)
+Inductive tri : Type := TT | TF | TN | TE.
+(* frequency and damping tests: an exact tie is observable on dyadic inputs (IEEE division is exact there) *)
+Definition tri_rel (num den err:Q) : tri :=
+  if Qeq_bool den 0 then TF else
+  if near (num / den) err (Qabs err) then TN else
+  if tie (num / den) err then TE else
+  if Qlt_bool (num / den) err then TT else TF.
+(* MAC test: the float MAC goes through a complex modulus, so an exact tie is not observable: counted as near *)
+Definition tri_mac (m:option Q) (err:Q) : tri :=
+  match m with
+  | None => TF
+  | Some v => if Qle_bool (Qabs (1 - v - err)) tol9 then TN else if Qlt_bool (1 - v) err then TT else TF
+  end.
+Definition is_tf (t:tri) : bool := match t with TF => true | _ => false end.
+Definition is_tn (t:tri) : bool := match t with TN => true | _ => false end.
+Definition is_te (t:tri) : bool := match t with TE => true | _ => false end.
+
 Inductive verdict : Type := VStable | VNot | VNear | VTie.
-(* VNear : some decision of this cell lies within 1e-9 (relative) of its threshold: not judged.
-   VTie  : no near decision, but some test has cond = err exactly (the strict test fails: label 0). *)
+(* VStable : all three tests clearly true                       (label must be 1)
+   VNot    : the cell cannot be stable, or one test is clearly false (label must be 0)
+   VNear   : no test clearly false and some decision within 1e-9 (relative) of its threshold: not judged
+   VTie    : otherwise, some frequency/damping test has cond = err exactly (strict test fails: label 0). *)
+Definition verdict3 (a b c:tri) : verdict :=
+  if is_tf a || is_tf b || is_tf c then VNot
+  else if is_tn a || is_tn b || is_tn c then VNear
+  else if is_te a || is_te b || is_te c then VTie
+  else VStable.
+
 Definition cell_verdict Fn Xi Phi c0 c1 efn exi ephi (i o:nat) : verdict :=
-  let lab := label Fn Xi Phi c0 c1 efn exi ephi i o in
-  let plain := if lab then VStable else VNot in
-  if negb ((c0 <=? o)%nat && (o <=? c1)%nat) then plain else
+  if negb ((c0 <=? o)%nat && (o <=? c1)%nat) then VNot else
   match o with
-  | 0%nat => plain
+  | 0%nat => VNot
   | S o1 =>
     match getQ Fn i o, getQ Xi i o, getS Phi i o with
     | Some f, Some x, Some p =>
        match nanargmin (dists Fn o1 f) with
-       | None => plain
+       | None => VNot
        | Some (k,d) =>
           if runner_up_near (dists Fn o1 f) d then VNear else
           match getQ Fn k o1, getQ Xi k o1, getS Phi k o1 with
           | Some f1, Some x1, Some p1 =>
-              let c1n := if Qeq_bool f 0 then false else near (Qabs (f - f1) / f) efn (Qabs efn) in
-              let c2n := if Qeq_bool x 0 then false else near (Qabs (x - x1) / x) exi (Qabs exi) in
-              let c3n := match mac p p1 with Some v => near (1 - v) ephi 1 | None => false end in
-              let c1t := if Qeq_bool f 0 then false else tie (Qabs (f - f1) / f) efn in
-              let c2t := if Qeq_bool x 0 then false else tie (Qabs (x - x1) / x) exi in
-              let c3t := match mac p p1 with Some v => tie (1 - v) ephi | None => false end in
-              if c1n || c2n || c3n then VNear else if c1t || c2t || c3t then VTie else plain
-          | _,_,_ => plain
+              verdict3 (tri_rel (Qabs (f - f1)) f efn) (tri_rel (Qabs (x - x1)) x exi) (tri_mac (mac p p1) ephi)
+          | _,_,_ => VNot
           end
        end
-    | _,_,_ => plain
+    | _,_,_ => VNot
     end
   end.
 End SC.
@@ -140,6 +175,7 @@ Arguments sc_apply {Shape} mac Fn Xi Phi c0 c1 efn exi ephi.
 Arguments sc_ssi {Shape} mac Fn Xi Phi ordmin ordmax efn exi ephi.
 Arguments sc_plscf {Shape} mac Fn Xi Phi ordmin ordmax efn exi ephi.
 Arguments stable_spec {Shape} mac Fn Xi Phi efn exi ephi i o.
+Arguments stable_text {Shape} mac Fn Xi Phi efn exi ephi i o.
 Arguments cell_verdict {Shape} mac Fn Xi Phi c0 c1 efn exi ephi i o.
 
 (* ---------- the closed executable instance: complex shapes as lists of (re, im), exact rational MAC ---------- *)
@@ -161,6 +197,20 @@ Definition mac_q (x a:cshape) : option Q :=
   let den := Qred (herm_re x x * herm_re a a) in
   if Qeq_bool den 0 then None
   else Some (Qred ((herm_re x a * herm_re x a + herm_im x a * herm_im x a) / den)).
+
+(* the same quantities without the intermediate reductions: the reference the executable ones are proved equal (==) to *)
+Fixpoint hre (x a:cshape) : Q :=
+  match x, a with
+  | (xr,xi)::x', (ar,ai)::a' => xr*ar + xi*ai + hre x' a'
+  | _, _ => 0
+  end.
+Fixpoint him (x a:cshape) : Q :=
+  match x, a with
+  | (xr,xi)::x', (ar,ai)::a' => xr*ai - xi*ar + him x' a'
+  | _, _ => 0
+  end.
+(* |x^H a|^2 / ((x^H x)(a^H a)) *)
+Definition mac_ref (x a:cshape) : Q := (hre x a * hre x a + him x a * him x a) / (hre x x * hre a a).
 
 (* a cell of Phi as stored: one optional complex number per channel; MAC of a vector with any nan is nan *)
 Fixpoint cell_shape (c:list (option (Q*Q))) : option cshape :=
@@ -195,6 +245,10 @@ Definition run_sc Fn Xi PhiRaw (c0 c1:nat) efn exi ephi : string :=
   (show_labels (sc_apply mac_q Fn Xi (norm_phi PhiRaw) c0 c1 efn exi ephi) ++ "|" ++ show_verdicts Fn Xi PhiRaw c0 c1 efn exi ephi)%string.
 Definition run_ssi Fn Xi PhiRaw (ordmin ordmax:nat) efn exi ephi : string :=
   (show_labels (ssi_labels Fn Xi PhiRaw ordmin ordmax efn exi ephi) ++ "|" ++ show_verdicts Fn Xi PhiRaw ordmin ordmax efn exi ephi)%string.
+(* the verdict range of the pLSCF call is stated through ORDERS: column k is in range iff ordmin <= k+1 <= ordmax *)
 Definition run_plscf Fn Xi PhiRaw (ordmin ordmax:nat) efn exi ephi : string :=
   (show_labels (plscf_labels Fn Xi PhiRaw ordmin ordmax efn exi ephi) ++ "|"
-   ++ show_verdicts Fn Xi PhiRaw (Nat.max (ordmin - 1) 0) (ordmax - 1) efn exi ephi)%string.
+   ++ match ordmax with
+      | 0%nat => show_verdicts Fn Xi PhiRaw 1 0 efn exi ephi
+      | S m => show_verdicts Fn Xi PhiRaw (ordmin - 1) m efn exi ephi
+      end)%string.
